@@ -56,7 +56,7 @@ func mutate(r *rand.Rand, b []byte, pool [][]byte) ([]byte, string) {
 		}
 		return r.Intn(n)
 	}
-	switch k := r.Intn(14); k {
+	switch k := r.Intn(15); k {
 	case 0: // bit flip
 		if n > 0 {
 			p := pos()
@@ -172,6 +172,8 @@ func mutate(r *rand.Rand, b []byte, pool [][]byte) ([]byte, string) {
 			b = append(b[:p], append(rep, b[p:]...)...)
 		}
 		return b, "repeat"
+	case 13: // the room ID gets the shape of the other family of room versions (with / without a domain)
+		return roomIDShape(r, b), "ridshape"
 	default: // drop a structural byte
 		cs := findAll(b, func(c byte) bool { return strings.IndexByte(`{}[],:"`, c) >= 0 })
 		if len(cs) > 0 {
@@ -180,6 +182,31 @@ func mutate(r *rand.Rand, b []byte, pool [][]byte) ([]byte, string) {
 		}
 		return b, "dropstruct"
 	}
+}
+
+// roomIDShape rewrites the value of the first "room_id" member (or adds the member where there is none, as on the
+// create event of a room version with derived room IDs): 43 URL-safe characters without a domain - unrelated, or
+// those of an event ID that occurs in the input -, the same followed by a domain, or a plain ID with a domain.
+func roomIDShape(r *rand.Rand, b []byte) []byte {
+	opaque := b43
+	if r.Intn(2) == 0 {
+		if i := bytes.Index(b, []byte(`"$`)); i >= 0 && i+46 <= len(b) && b[i+45] == '"' {
+			opaque = string(b[i+2 : i+45])
+		}
+	}
+	id := []string{"!" + opaque, "!" + opaque + ":hs1", "!room:hs1", "!" + opaque[:42], "!" + opaque + "A"}[r.Intn(5)]
+	const key = `"room_id":"`
+	if i := bytes.Index(b, []byte(key)); i >= 0 {
+		from := i + len(key)
+		if j := bytes.IndexByte(b[from:], '"'); j >= 0 {
+			return append(append(append([]byte(nil), b[:from]...), id...), b[from+j:]...)
+		}
+		return b
+	}
+	if i := bytes.IndexByte(b, '{'); i >= 0 {
+		return append(append(append([]byte(nil), b[:i+1]...), key+id+`",`...), b[i+1:]...)
+	}
+	return b
 }
 
 // ---------------------------------------------------------------- generation
